@@ -231,7 +231,7 @@ func main() {
 	if err != nil {
 		die(err)
 	}
-	fmt.Printf("instrumented: %d yields, %d lock seams, %d clock reads\n", nYields, nLocks, nClock)
+	fmt.Printf("instrumented: %d yields, %d lock seams, %d clock reads, %d tuple assignments split\n", nYields, nLocks, nClock, nSplit)
 	if nLocks == 0 && !optNoYield {
 		// e.g. a tree that synchronises with atomics only: schedule points are
 		// still everywhere; the lock-related reach probes are switched off
@@ -393,10 +393,63 @@ func rewriteStmts(list []ast.Stmt, rel, class string) []ast.Stmt {
 			continue
 		}
 		rewriteNested(st, rel, class)
+		// a, b := f(), g()  =>  t1 := f(); <yield>; t2 := g(); a, b := t1, t2   (same order of
+		// evaluation; a schedule point between the two reads of what is meant to be ONE snapshot)
+		if as, ok := st.(*ast.AssignStmt); ok && splittable(as) {
+			out = append(out, yieldStmt(rel, line, cls))
+			nYields++
+			var tmps []ast.Expr
+			for i, rhs := range as.Rhs {
+				nTmp++
+				tmp := ast.NewIdent(fmt.Sprintf("simTmp%d", nTmp))
+				out = append(out, &ast.AssignStmt{Lhs: []ast.Expr{tmp}, Tok: token.DEFINE, Rhs: []ast.Expr{rhs}})
+				tmps = append(tmps, ast.NewIdent(tmp.Name))
+				if i < len(as.Rhs)-1 {
+					out = append(out, yieldStmt(rel, line, cls))
+					nYields++
+				}
+			}
+			as.Rhs = tmps
+			out = append(out, st)
+			nSplit++
+			continue
+		}
 		out = append(out, yieldStmt(rel, line, cls), st)
 		nYields++
 	}
 	return out
+}
+
+var nTmp, nSplit int
+
+// splittable: a tuple assignment to plain identifiers whose right-hand sides contain at least
+// two calls in different positions (anything else has nothing to interleave).
+func splittable(as *ast.AssignStmt) bool {
+	if len(as.Rhs) < 2 || len(as.Lhs) != len(as.Rhs) || (as.Tok != token.DEFINE && as.Tok != token.ASSIGN) {
+		return false
+	}
+	for _, l := range as.Lhs {
+		if _, ok := l.(*ast.Ident); !ok {
+			return false
+		}
+	}
+	calls := 0
+	for _, r := range as.Rhs {
+		has := false
+		ast.Inspect(r, func(x ast.Node) bool {
+			switch x.(type) {
+			case *ast.CallExpr:
+				has = true
+			case *ast.FuncLit:
+				return false
+			}
+			return true
+		})
+		if has {
+			calls++
+		}
+	}
+	return calls >= 2
 }
 
 func rewriteBlock(b *ast.BlockStmt, rel, class string) {
